@@ -1101,6 +1101,12 @@ def c17(stream, scen=None):
                     wit.append(f'frame {i}: batcher {x} (size {bsz[x]}) emits {o} with {len(lv)} parts')
                 emitted.setdefault(x, []).extend(lv)
             lastout[x] = o
+            ip = d.slot('inprog')
+            if ip is not None and bsz[x] is not None and bsz[x] >= 1:
+                nk = len(parts.get(ip, {}).get('kids') or [])
+                if nk >= bsz[x]:
+                    wit.append(f'frame {i}: batcher {x} (size {bsz[x]}) keeps {nk} parts in its unfinished batch {ip}: '
+                               f'a full batch was not completed')
             em = emitted.get(x, [])
             ar = arrived.get(x, [])
             if em != ar[:len(em)]:
